@@ -273,7 +273,7 @@ def case_strategy(gate: specgen.Gate):
 
 
 def shards(tier: str, seed: int) -> list[dict]:
-    n_sh, per = (16, 60) if tier == "quick" else (48, 700)
+    n_sh, per = (16, 60) if tier == "quick" else (48, 400)
     return [{"seed": seed * 1000 + i, "n": per} for i in range(n_sh)]
 
 
